@@ -44,25 +44,25 @@ CHECKS = {
     ),
     "C02": dict(
         technique="exhaustive program-grammar product x Eulerian lattice walk on the real Model; spec-level float64 scipy density evaluator as oracle",
-        text="For each of 4991 (thorough 15431) generated model programs (14 hierarchy skeletons of depth <=3 with <=4 distributed variables x every flag combination {observed, parameter, neither, both} x per_obs subsets; Dist nodes without a variable, weak variables with distributions, flagged variables without one; transformed variables via 7 entry points x 3 families; user nodes for every non-empty subset of the three totals; 15 DistRegBuilder models) the valuation lattice of the strong variables is walked by single assignments on one live model (Euler circuit over 3 values per variable for canonical programs), under auto-update and manual update(). After every transition the three totals, every Dist node, every Var.log_prob, the lik+prior identity and per_obs invariance are compared with a float64 scipy evaluator.",
-        note="Nothing is claimed between lattice points; tolerance 2e-5*sum|terms| against observed noise 3e-7; scipy densities, numpy eigvalsh and closed-form Jacobians of Exp/Softplus/Scale and TFP's default bijectors are trusted; in quick, non-canonical flag combinations with >=3 distributed variables get 4 of the per_obs subsets.",
+        text="For each of 5543 (thorough 16487) generated model programs (16 hierarchy skeletons of depth <=3, two of them with a shared cached intermediate feeding two distributions with <=4 distributed variables x every flag combination {observed, parameter, neither, both} x per_obs subsets; Dist nodes without a variable, weak variables with distributions, flagged variables without one; transformed variables via 7 entry points x 3 families; user nodes for every non-empty subset of the three totals; 15 DistRegBuilder models) the valuation lattice of the strong variables is walked by single assignments on one live model (Euler circuit over 3 values per variable for canonical programs), in three walk modes: auto-update, manual update(), and auto-update off + targeted update(_model_log_prob|lik|prior) followed by update(). User nodes include non-scalar ones (forwarded with their shape); assignments cycle through new jax array, new numpy array, and in-place edit of the stored numpy array re-assigned as the same object. After every transition the three totals, every Dist node, every Var.log_prob, the lik+prior identity and per_obs invariance are compared with a float64 scipy evaluator.",
+        note="Nothing is claimed between lattice points; tolerance 4e-6*sum|terms| + 4e-6 against observed noise 3e-7; scipy densities, numpy eigvalsh and closed-form Jacobians of Exp/Softplus/Scale and TFP's default bijectors are trusted; in quick, non-canonical flag combinations with >=3 distributed variables get 4 of the per_obs subsets.",
         ref="3/C02",
     ),
     "C03": dict(
         technique="explicit-state BFS over interface call histories on the real code (closure for eager calls, depth-bounded for jit/vmap modes) with fresh-model and differential oracles",
-        text="Per (program in {hierarchy with prediction nodes, GLM, transformed, node/variable name clash, distreg, user log-prob node}, user-model auto_update on/off, LieselInterface; GooseModel for one config) histories of update_state calls on ONE interface instance are explored: part A eager calls with 4 positions x 3 states to closure of the canonical state (digest of the private copy's observable fields + last result + jit-cache signature); part B modes {eager, jit, vmap batch 3} with 2 positions x 3 states to depth 2 (thorough 3). Every transition is replayed on a fresh interface and checked against a fresh oracle model, a bit-exact differential table (history independence), deep snapshots of input state / position / user's model, extract_position round trips with both key kinds, and log_prob against the model and the scipy reference. Dict, Dataclass and NamedTuple interfaces over all key subsets x 2 values x chains of 2 calls x modes.",
+        text="Per (program in {hierarchy with prediction nodes, GLM, transformed, node/variable name clash, distreg, user log-prob node}, user-model auto_update on/off, LieselInterface; GooseModel for one config) histories of update_state calls on ONE interface instance are explored: part A eager calls with 4 positions x 3 states to closure of the canonical state (digest of the private copy's observable fields + last result + jit-cache signature); part B modes {eager, jit, vmap batch 3} with 2 positions x 3 states to depth 2 (thorough 3). Every transition is replayed on a fresh interface and checked against a fresh oracle model, a bit-exact differential table (history independence), deep snapshots of input state / position / user's model, extract_position round trips with both key kinds, and log_prob against the model and the scipy reference. Dict / NamedTuple / plain dataclass / dataclass with __post_init__ pre-processing and an init=False field: all key subsets x 2 values x chains of 2 calls (eager; jit and vmap for dict and NamedTuple).",
         note="Input states are up to date and complete (documented precondition); ambiguous keys resolve node-first; jax.jit/vmap semantics and TFP densities trusted; merging histories relies on the canonical state covering every mutable field of the private copy.",
         ref="3/C03",
     ),
     "C04": dict(
         technique="exact reconstruction of the transition law by enumerating every environment answer (scripted PRNG) of the real kernels: full stochastic matrices for finite chains, detailed balance with the reconstructed Gaussian proposal law, leapfrog-trajectory conformance for HMC/NUTS",
-        text="(a) finite chains end to end: for 7 kernel sequences (finite-discrete Gibbs, MH with asymmetric discrete proposals, user Gibbs; Liesel and dict models; every order) the full stochastic matrix of KernelSequence.transition is rebuilt from every joint state x epoch x every categorical/accept answer and pi P = pi, stochastic rows and epoch-homogeneity are checked; the premises of the reconstruction (no PRNG key used twice, kernel state unchanged) are checked on every execution. (b) RW/IWLS/MH on continuous blocks (dict and Liesel models, scalar/vector/two-key blocks, log-scale parameter with state-dependent information): scripted normals recover the actual affine proposal map at x and x', the reverse draw is scripted, and pi(x)q(x'|x)a(x->x') = pi(x')q(x|x')a(x'->x) plus 'moves iff u < a' are checked. (c) HMC/NUTS under a recording model interface: every density evaluation point must follow the Stoermer-Verlet recurrence of the float64 reference density with the kernel's step size and inverse mass matrix (identity / non-uniform diagonal / dense, keys in non-alphabetical order), initial momentum ~ N(0, M), HMC acceptance = min(1, exp(H0-HL)), move iff u < a, exact write-back.",
+        text="(a) finite chains end to end: for 7 kernel sequences (finite-discrete Gibbs, MH with asymmetric discrete proposals, user Gibbs; Liesel and dict models; every order) the full stochastic matrix of KernelSequence.transition is rebuilt from every joint state x epoch x every categorical/accept answer and pi P = pi, stochastic rows and epoch-homogeneity are checked; the premises of the reconstruction (no PRNG key used twice, kernel state unchanged) are checked on every execution. (b) RW/IWLS/MH on continuous blocks (dict and Liesel models incl. a bare Value parameter and a parameter transformed with Var.transform(tfb.Exp()); scalar/vector/two-key blocks, log-scale parameter with state-dependent information): scripted normals recover the actual affine proposal map at x and x', the reverse draw is scripted, and pi(x)q(x'|x)a(x->x') = pi(x')q(x|x')a(x'->x) plus 'moves iff u < a' are checked. (c) HMC/NUTS under a recording model interface: every density evaluation point must follow the Stoermer-Verlet recurrence of the float64 reference density with the kernel's step size and inverse mass matrix (identity / non-uniform diagonal / dense, keys in non-alphabetical order), initial momentum ~ N(0, M), HMC acceptance = min(1, exp(H0-HL)), move iff u < a, exact write-back.",
         note="One-step invariance of a homogeneous law gives invariance after any number of transitions; HMC invariance follows from conformance to the reversible volume-preserving integrator + MH step (standard theorem); NUTS tree building / selection (blackjax) is the trusted base; composition over continuous blocks relies on C09's premises. Lattice points only; tolerances 2e-5 on probabilities, 3e-3 on log detailed-balance ratios.",
         ref="3/C04",
     ),
     "C06": dict(
         technique="exhaustive product-lattice enumeration of scripted proposal/accept draws on the real kernels with a closed-form float64 oracle and reverse-move closure",
-        text="Per unit (kernel variant x model family x block layout x interface) the full product lattice(x) x scripted Gaussian draws (0, +-e_i, product lattice) x step sizes x scripted uniforms x epoch types is executed on the real kernel.transition, plus the reverse move from every realised proposal. Oracle (float64, analytic gradient/Hessian): proposal affine in z with the DOCUMENTED mean and covariance; reported alpha = min(1, pi(x')q(x|x')/(pi(x)q(x'|x))); detailed balance of the forward/backward pair; solve/mvn_log_prob/mvn_sample on all 2x2 and 3x3 factor lattices.",
+        text="Per unit (kernel variant x model family x block layout x interface) the full product lattice(x) x scripted Gaussian draws (0, +-e_i, product lattice) x step sizes x scripted uniforms x epoch types is executed on the real kernel.transition, plus the reverse move from every realised proposal. Oracle (float64, analytic gradient/Hessian): proposal affine in z with the DOCUMENTED mean and covariance; reported alpha = min(1, pi(x')q(x|x')/(pi(x)q(x'|x))); detailed balance of the forward/backward pair; solve/mvn_log_prob/mvn_sample on all 2x2 and 3x3 factor lattices; an eager key-discipline stage checks that within a transition no PRNG key is consumed by two draws nor equals the kernel's input key, and that transitions with different input keys share no draw key.",
         note="Lattice statement only; draws scripted via ScriptedPRNG (traced inputs under jit+vmap, eager sub-lattice cross-checked with a recording interface); families Gaussian, logistic, Poisson, Gamma-Poisson(log) through DictInterface plus Poisson through a real lsl.Model; tolerance alpha 2e-4 absolute; where alpha == 0 hides the proposal it is predicted from the documented law; the accept rule u < alpha is C05's subject.",
         ref="3/C06",
     ),
@@ -80,13 +80,13 @@ CHECKS = {
     ),
     "C13": dict(
         technique="scripted-PRNG seam capturing Gamma shape and categorical logits on the real kernels over full parameter lattices, with closed-form and model-joint ratio oracles",
-        text="tau2_gibbs_kernel: full product of 5 penalties (7 thorough; rank 0 to full, dim 2-5) x a x b x 6 coefficient vectors incl. null-space vectors; the real transition runs with the gamma seam answering {1, 1/2, 2} and recording the shape parameter. Oracles: closed form a + rk(K)/2 and b + beta'K beta/2, and a ratio test log joint_model(tau2) - log IG(tau2; a_g, b_g) constant over 6 tau2 values on the real model's joint. finite_discrete_gibbs_kernel: 19 specs (25 thorough) covering FiniteDiscrete, Bernoulli and explicit outcomes, sizes 2-4, likelihood none / Normal mean / mixture indicator, crossed with every ordered pair of states back-to-back and every forced outcome; softmax(logits) equals the exact normalised joint.",
-        note="Lattices only; jax.random.gamma / categorical trusted as samplers (what is checked is the parameters liesel hands them and the use of the answer); tolerances 1e-5 relative (parameters), 0.005 (log-ratio; noise <= 6e-5, bug effect >= 3.4), 1e-5 (probabilities); exceptions thrown by liesel on valid input count as violations.",
+        text="tau2_gibbs_kernel: full product of 5 penalties (7 thorough; rank 0 to full, dim 2-5) plus dim-20 scaled penalties whose matrix_rank differs from the number of float32 eigenvalues above 1e-6, x a x b x 6 coefficient vectors incl. null-space vectors; the kernel is built ONCE per (penalty, a) and the b lattice, a second a and a changed rank reach it only through the model state; the real transition runs with the gamma seam answering {1, 1/2, 2} and recording the shape parameter. Oracles: closed form a + rk(K)/2 and b + beta'K beta/2, and a ratio test log joint_model(tau2) - log IG(tau2; a_g, b_g) constant over 6 tau2 values on the real model's joint. finite_discrete_gibbs_kernel: 22 specs (29 thorough) covering FiniteDiscrete, Bernoulli and explicit outcomes, sizes 2-4, likelihood none / Normal mean / mixture indicator / value of a weak variable with a distribution, with 3 and 150+ observations (|log joint| up to ~5000), crossed with every ordered pair of states back-to-back and every forced outcome; softmax(logits) equals the exact normalised joint.",
+        note="Lattices only; jax.random.gamma / categorical trusted as samplers (what is checked is the parameters liesel hands them and the use of the answer); tolerances 1e-5 relative (parameters), ratio test 0.005 (dim <= 5) / 0.02 (dim 20) + 5e-7*|log joint| (bug effect >= 3.4), probabilities 1e-5 + 2e-6*max|logit|; exceptions thrown by liesel on valid input count as violations.",
         ref="3/C13",
     ),
     "C14": dict(
         technique="exhaustive configuration x entry-point x value-lattice enumeration on built models, checked against a change-of-variables reference (scipy float64 + closed-form bijectors)",
-        text="Full product of 13 distribution families x bijector option (instance, class with args, default) x entry point (Var.transform(instance), Var.transform(cls, args), Var.transform(None), auto_transform at build, deprecated GraphBuilder.transform in the same forms) x parameter kind (constants; distribution parameters as variables incl. a hyper-prior; bijector arguments as variables; both) x shape, per_obs and parameter flag. Each case is a real model walked over 7 (thorough 13) unconstrained values by assignment, then every parameter and argument variable is re-assigned. Oracle: original value equals b(t) and is unchanged by the transformation, new log_prob = log p(b(t)) + log|b'(t)|, Model.log_prob / log_prior / log_lik, parameter flag moved, original keeps no distribution, per_obs carried over.",
+        text="Full product of 13 distribution families x bijector option (instance, class with args, default) x entry point (Var.transform(instance), Var.transform(cls, args), Var.transform(None), auto_transform at build, deprecated GraphBuilder.transform in the same forms) x parameter kind (constants; distribution parameters as variables incl. a hyper-prior; bijector arguments as variables; both) x build style (GraphBuilder.add(x), add(sink only), lsl.Model([x]), lsl.Model([sink])) x shape, per_obs and parameter flag; every variable handed to the distribution or bijector must be in the built model. Each case is a real model walked over 7 (thorough 13) unconstrained values by assignment, then every parameter and argument variable is re-assigned. Oracle: original value equals b(t) and is unchanged by the transformation, new log_prob = log p(b(t)) + log|b'(t)|, Model.log_prob / log_prior / log_lik, parameter flag moved, original keeps no distribution, per_obs carried over.",
         note="TFP's densities and bijectors trusted as such but every number is compared with an independent float64 scipy or closed-form reference; values to 2e-5 relative, log-densities to 2e-4*(1+|log p|+|log b'|); lattice points only.",
         ref="3/C14",
     ),
@@ -98,7 +98,7 @@ CHECKS = {
     ),
     "C20": dict(
         technique="exhaustive enumeration of loss histories on the real Stopper plus stateless answer enumeration of optim_flat under a scripted optimiser and gradient-decoded batch membership, against documented-pseudo-code reference models",
-        text="Stopper: every loss history in letters^L (4 letters, L=7 quick; 5 letters, L=8 thorough; tolerance-critical spacings), every index, patience 1-3, 4 (atol, rtol) pairs and 2 max_iter values, jitted and eager, against the docstring pseudo-code. optim_flat: every execution under a scripted optimiser (3-letter loss alphabet; max_iter 6 quick / 7 thorough, all early-stop prefixes; full lattice restore x prune x save_position_history x validation model none/same-n/different-n) against a reference simulation (stop iteration, iteration_best in the final window, restored position, history lengths / NaN padding / values, state consistent with position). Mini-batches: n in {4,5,7} x batch size {2,3} x 5 seeds, K = 20/30 iterations, membership decoded exactly from gradients.",
+        text="Stopper: every loss history in letters^L (4 letters, L=7 quick; 5 letters, L=8 thorough; tolerance-critical spacings), every index, patience 1-3, 4 (atol, rtol) pairs and 2 max_iter values, jitted and eager, against the docstring pseudo-code. optim_flat: every execution under a scripted optimiser (3-letter loss alphabet; max_iter 6 quick / 7 thorough, all early-stop prefixes; full lattice restore x prune x save_position_history x validation model none/same-n/different-n) against a reference simulation (stop iteration, iteration_best in the final window, restored position, history lengths / NaN padding / values, state consistent with position). Mini-batches: n in {4,5,7} x batch size {2,3} x 5 seeds (two of them with a separate validation model with different data and n: batches must be cut from the training data), K = 20/30 iterations, membership decoded exactly from gradients.",
         note="Window-completeness boundary i in {p-1,p} is a don't-care; ties admit any minimiser; patience <= max_iter only; tqdm replaced by a disabled bar; trusted: jax.random.permutation, optax.apply_updates, lax loops. The open finding minibatch:same-partition-every-iteration (carried key never advanced; a fix would break a pinned golden test) reproduces on /repo and is printed as KNOWN-FINDING.",
         ref="3/C20",
     ),
